@@ -31,3 +31,8 @@ mod c04 {
 mod c20 {
     include!(concat!(env!("CLAP_VERIF_DIR"), "/c20.rs"));
 }
+#[cfg(all(test, not(kani)))]
+#[allow(dead_code, unused_imports, unused_qualifications, clippy::all)]
+mod native_c12 {
+    include!(concat!(env!("CLAP_VERIF_DIR"), "/native_c12.rs"));
+}
